@@ -40,6 +40,9 @@ MACRO = '''macro_rules! mk{($a:ident,$ab:expr,$abc:ty)=>{fn $a()->$abc{let v=$ab
 '''
 ASYNC18 = "async fn  af( ){ }\nfn  uses_dyn(x:&dyn Fn()){ }\n"
 ASYNC15 = "fn  old( ){let async=1;let r#try=2;}\n"
+LAZYBAD = ("fn  before( ){ }\nlazy_static! {\n    static ref TABLE: Vec<u32> = {\n        let mut v = Vec::new();\n        v.push(1)\n"
+           "        v\n    };\n}\n")
+MACCALL = "fn  mc( ){foo!( a+1 ,b*2 );let v=bar![1+1 ,2];}\n"
 SKIPMAC = '''#![rustfmt::skip::macros(keep,keep2)]
 fn  uses( ){keep!( a ,b );keep2!(1 ,  2);other!( a ,b );}
 '''
@@ -56,19 +59,26 @@ def generate(rng, tier):
         else:
             d = "d%d" % i
         dirs.append(d)
-        extra = rng.choice(["", "", "", MACRO, SKIPMAC, ASYNC18, ASYNC18, ASYNC15])
+        extra = rng.choice(["", "", "", MACRO, SKIPMAC, ASYNC18, ASYNC18, ASYNC15, "perfile", "perfile", "perfile"])
 
         def body(r, extra=extra):
+            if extra == "perfile":
+                # different constructs in different files of one tree: state left behind by one file must not
+                # reach the next one
+                k = r.below(6)
+                if k < 2:
+                    return LAZYBAD  # (no other macro call may follow it in the file)
+                return [MACCALL, MACCALL, MACRO, ""][k - 2] + (gen_rust.unformatted(r, 1 + r.below(2)) if r.chance(50) else "")
             return extra + gen_rust.unformatted(r, 1 + r.below(3))
 
-        t = gen_tree.gen_crate(rng, base=d, root_name="r%d.rs" % i, max_files=rng.choice([1, 1, 2, 3]),
+        t = gen_tree.gen_crate(rng, base=d, root_name="r%d.rs" % i, max_files=rng.choice([1, 1, 2, 3]) if extra != "perfile" else rng.choice([3, 4]),
                                feats={"modrs", "path"}, suffix=str(i), body=body)
         files.update(t.files)
         kind = rng.choice(["unformatted"] * 5 + ["formatted"] * 2 + ["broken"] * 2)
         if kind == "broken":
             victim = rng.choice(t.reach)
             files[victim] = files[victim] + rng.choice(["fn broken( {\n", "fn x() { let = ; }\n", "fn r() { let _ = 0b12; }\n"])
-        inputs.append({"root": t.root, "files": list(t.reach), "kind": kind, "dir": d})
+        inputs.append({"root": t.root, "files": list(t.reach), "kind": kind, "dir": d, "rootattrs": extra == SKIPMAC, "perfile": extra == "perfile"})
         if rng.chance(45):
             opts = gen_config.draw_opts(rng, rng.range(1, 3), allow_alias=False,
                                         keys=["tab_spaces", "max_width", "hard_tabs", "brace_style", "fn_params_layout",
@@ -85,12 +95,13 @@ def generate(rng, tier):
     mode = rng.choice(MODES)
     # overlapping inputs: the same file named twice, or a leaf module file also named as an input of its own
     overlap = None
-    if rng.chance(20):
+    if rng.chance(30):
         i = rng.below(len(inputs))
         leafs = [f for f in inputs[i]["files"][1:]]
-        if leafs and rng.chance(50):
+        if leafs and rng.chance(65):
             f = rng.choice(leafs)
-            overlap = {"root": f, "files": [f], "kind": inputs[i]["kind"], "dir": os.path.dirname(f), "overlap": True}
+            overlap = {"root": f, "files": [f], "kind": inputs[i]["kind"], "dir": os.path.dirname(f), "overlap": True,
+                       "leaf_of": i}
         else:
             overlap = dict(inputs[i]); overlap["overlap"] = True
         mode = rng.choice([MODES[1], MODES[2]])  # stdout / check: whole-output comparison
@@ -338,7 +349,43 @@ def execute(case):
                 if rm.stdout != b"".join(parts) and not core.abnormal(rm):
                     v.add("C15:overlapping-inputs|%s" % mode, "argv=%s: stdout is not the concatenation of the single-input outputs (%d vs %d bytes)" % (args, len(rm.stdout), len(b"".join(parts))))
                     break
+            # a leaf module formatted as part of its crate and on its own (same configuration, no crate-level
+            # attributes): the same bytes -- nothing a sibling file left behind may leak into it
+            li = ov.get("leaf_of")
+            if li is not None and mode == "stdout" and not inputs[li].get("rootattrs") and inputs[li]["kind"] != "broken" and ro.exit == 0:
+                f = ov["root"]
+                nested_cfg = any(p.endswith("rustfmt.toml") and os.path.dirname(p) != inputs[li]["dir"] and
+                                 (os.path.dirname(f) + "/").startswith(os.path.dirname(p) + "/") for p in world["files"])
+                alone = parse_stdout_sections(ro.stdout, sc.root, sc.root, known).get(f)
+                inside = single[li][1].get(f)
+                if not nested_cfg and alone is not None and inside is not None and alone != inside:
+                    v.add("C15:file-in-tree-vs-alone", "%s is formatted differently as a module of %s and on its own" % (f, inputs[li]["root"]), file=f)
             v.probe("overlapping-inputs")
+        # (g) every module file of a tree, formatted inside the tree and on its own (same configuration, no crate-level
+        # attributes): the same bytes -- nothing an earlier file of the tree left behind may leak into a later one
+        for li, inp in enumerate(inputs):
+            if not inp.get("perfile") or inp["kind"] == "broken" or len(inp["files"]) < 2:
+                continue
+            sc.fresh_world(world)
+            argv0 = ["--color", "never", "--emit", "stdout"] + list(case["cli"])
+            rt = core.run_inv(sc, {"argv": argv0 + [inp["root"]], "hashseed": case["hashseed"]})
+            v.account(rt)
+            if rt.exit != 0:
+                continue
+            inside_all = parse_stdout_sections(rt.stdout, sc.root, sc.root, known)
+            for f in inp["files"][1:]:
+                nested_cfg = any(p.endswith("rustfmt.toml") and os.path.dirname(p) != inp["dir"] and
+                                 (os.path.dirname(f) + "/").startswith(os.path.dirname(p) + "/") for p in world["files"])
+                if nested_cfg or inside_all.get(f) is None:
+                    continue
+                sc.fresh_world(world)
+                ra = core.run_inv(sc, {"argv": argv0 + [f], "hashseed": case["hashseed"]})
+                v.account(ra, nontrivial=False)
+                alone = parse_stdout_sections(ra.stdout, sc.root, sc.root, known).get(f)
+                if ra.exit == 0 and alone is not None and alone != inside_all[f]:
+                    v.add("C15:file-in-tree-vs-alone", "%s is formatted differently as a module of %s and on its own" % (f, inp["root"]), file=f)
+                    break
+            v.probe("each-file-alone")
         # (c) hash seeds
         for k in (1, 2, 3):
             res, pf, muts, argv = run(list(perms[0]), seed=(case["hashseed"] * 31 + k * 104729) & 0xFFFFFFFF)
